@@ -550,10 +550,10 @@ class ClassicalControlledPairOperationBase(OperationBase):
 
     def __init__(
         self,
-        control,
-        control_type,
-        target,
-        target_type,
+        control=0,
+        control_type="e",
+        target=0,
+        target_type="p",
         c_register=0,
         noise=nm.NoNoise(),
     ):
